@@ -225,3 +225,136 @@ def check_c20(tier, seed, verdict, workdir):
     })
     return cov, ["the derive macros run at harness build time: a macro change that no longer compiles the shapes is reported as a harness build failure",
                  "probe agents stand in for arbitrary member agents (they observe call order through the shared generator and the shared environment)"]
+
+
+# ------------------------------------------------------------------------------------------ C16
+
+def check_c16(tier, seed, verdict, workdir):
+    prop = "C16"
+    modules = ["Bourse.Props.C16"]
+    pr = C.prove(prop, modules, clean=(tier == "thorough"))
+    shards = 8 if tier == "quick" else 16
+    n_audit = 60 if tier == "quick" else 1500
+    n_rand = 30 if tier == "quick" else 300
+
+    def one(i):
+        rc1, aud = drive_lines(["agent-audit", "--seed", str(seed * 100 + i), "--n", str(n_audit)], workdir, f"a{i}")
+        rc2, rand_lines = drive_lines(["sim-gen", "--seed", str(seed * 100 + 70 + i), "--n", str(n_rand), "--mix", "0"], workdir, f"r{i}")
+        stream = "\n".join(l for l in rand_lines if l[:2] in ("H ", "O ", "I "))
+        q = subprocess.run([C.DRIVER], input=stream + "\n", stdout=subprocess.PIPE, stderr=subprocess.PIPE, text=True)
+        finds, stats, done = book.parse_driver(q.stdout, f"sim{i}")
+        return rc1 or rc2, [l for l in aud if l.startswith("AA ")], finds, stats, done
+
+    res = shard_map(one, shards)
+    bad, k_found, samples = [], [], []
+    n_cfg = n_orders = n_cancels = n_nontrivial = 0
+    kinds = {}
+    totals = {}
+    for rc, aud, finds, stats, done in res:
+        if rc:
+            k_found.append("harness crashed")
+        for k, v in done.items():
+            totals[k] = totals.get(k, 0) + v
+        k_found += [repr(f) for f in finds if f.kind == "K"]
+        for l in aud:
+            t = l.split(" ")
+            n_cfg += 1
+            kv = dict(x.split("=") for x in t[3:7])
+            n_orders += int(kv["orders"])
+            n_cancels += int(kv["cancels"])
+            if int(kv["orders"]) > 0 and int(kv["cancels"]) > 0:
+                n_nontrivial += 1
+            kinds[t[-1][0]] = kinds.get(t[-1][0], 0) + 1
+            if len(samples) < 3:
+                samples.append(" ".join(t[7:]))
+            if t[2] != "ok":
+                bad.append((t[2], " ".join(t[7:]), t[1]))
+    seen = set()
+    for what, cfg, hid in bad:
+        key = what.split("@")[0]
+        if key in seen or len(seen) >= 3:
+            continue
+        seen.add(key)
+        verdict.violation({"kind": "impl-violates-property", "obligation": "A(C16): " + what, "config": cfg, "run": hid,
+                           "replay_cmd": f".build/harness/debug/drive agent-audit --seed {hid.split('-')[1]} --n {int(hid.split('-')[2]) + 1} | tail -1"},
+                          f"implementation violates C16: {what} for `{cfg}`")
+    failed = finish_proofs(prop, verdict, pr, [], bad)
+    if k_found and not bad:
+        verdict.violation({"kind": "model-impl-disagreement", "obligation": f"K(C16): {k_found[0]}"},
+                          f"correspondence K(C16) broke: the Lean model of RandomAgents no longer predicts the real run ({k_found[0]}); "
+                          "the instruction audit held on every explored run", nfi=True)
+    cov = base_cov(prop, tier, pr, modules)
+    cov.update({
+        "evaluations": n_cfg + totals.get("histories", 0),
+        "distinct_nontrivial": n_nontrivial,
+        "rule": "generated agent configurations (random/noise/momentum, single and multi-asset, tick 1..10, probabilities in {0, (0,1), >=1}, "
+                "sigma up to 10, empty/one-sided/two-sided starting books, 1..200 steps) driven step by step on the real environment; every "
+                "instruction emitted is audited (grid, tick and volume range, side vs observed mid, trader id, once per trader, probability 0 / >=1 "
+                "corners, cancels only of own active orders, at most one live order per random agent, no abort); RandomAgents-only simulations are "
+                "also compared bit-for-bit with the Lean model; non-trivial = configurations with both orders and cancellations",
+        "samples": samples,
+        "agent_kinds": kinds, "orders_audited": n_orders, "cancellations_audited": n_cancels,
+        "runs_compared_with_lean_model": totals.get("histories", 0),
+        "model_vs_impl_disagreements": len(k_found), "disagreements_checked": len(k_found),
+        "impl_vs_property_failures": len(bad),
+    })
+    return cov, ["PARTIAL on floats: LogNormal sampling and float rounding of the noise/momentum agents are audited on real runs, not proved; "
+                 "theorems cover RandomAgents exactly, Bernoulli corners and the grid repair of a clamped sell price",
+                 "cancellations of non-active orders are invisible through the public API (a no-op in the book) and are not audited for noise/momentum agents",
+                 "mid-prices are assumed far below 2^32 (a sell clamped to the top of the price range can land below a mid that is itself within one tick of Price::MAX)"]
+
+
+# ------------------------------------------------------------------------------------------ C17
+
+def check_c17(tier, seed, verdict, workdir):
+    prop = "C17"
+    modules = ["Bourse.Props.C17"]
+    pr = C.prove(prop, modules, clean=False)
+    shards = 8 if tier == "quick" else 16
+    n = 80 if tier == "quick" else 1500
+
+    def one(i):
+        rc, lines = drive_lines(["momentum", "--seed", str(seed * 100 + i), "--n", str(n)], workdir, f"m{i}")
+        mm = [l for l in lines if l.startswith("MM ")]
+        q = subprocess.run([C.DRIVER], input="\n".join(mm) + "\n", stdout=subprocess.PIPE, stderr=subprocess.PIPE, text=True)
+        finds, stats, done = book.parse_driver(q.stdout, f"mom{i}")
+        return rc, mm, finds, stats, done
+
+    res = shard_map(one, shards)
+    bad, samples, stats_all, totals = [], [], {}, {}
+    for rc, mm, finds, stats, done in res:
+        if rc:
+            bad.append(("harness crashed", ""))
+        for k, v in stats.items():
+            stats_all[k] = stats_all.get(k, 0) + v
+        for k, v in done.items():
+            totals[k] = totals.get(k, 0) + v
+        by = {l.split(" ")[1]: l for l in mm}
+        if not samples:
+            samples = [l[:300] for l in mm[:2]]
+        for f in finds:
+            bad.append((repr(f), by.get(f.hid, "")))
+    seen = set()
+    for what, line in bad:
+        key = what.split("[")[-1].split("@")[0]
+        if key in seen or len(seen) >= 3:
+            continue
+        seen.add(key)
+        verdict.violation({"kind": "impl-violates-property", "obligation": "A(C17): " + what, "run_line": line,
+                           "replay_cmd": ".build/harness/debug/drive momentum --seed <s> --n <k> (ids in the line are mom-<s>-<k>)"},
+                          f"implementation violates C17: {what}")
+    finish_proofs(prop, verdict, pr, [], bad)
+    cov = base_cov(prop, tier, pr, modules)
+    cov.update({
+        "evaluations": totals.get("histories", 0) * 2,
+        "distinct_nontrivial": totals.get("nontrivial_distinct", 0),
+        "rule": "generated momentum configurations (rising/falling/mixed/flat harness-quoted mid paths, decay in {1,1/2,1/4,3/4}, order ratio 0/1, "
+                "1-6 traders, single and multi-asset; two thirds at saturated demand) run on the real agent together with the path mirrored about a "
+                "fixed level; the documented rule is evaluated in exact rational arithmetic on the mids the agent observed (direction always, exact "
+                "counts when saturated) and the mirrored run must show the mirrored flow; non-trivial = runs in which the agent submitted orders",
+        "samples": samples, "op_and_branch_distribution": stats_all,
+        "impl_vs_property_failures": len(bad), "disagreements_checked": 0,
+    })
+    return cov, ["PARTIAL on floats: tanh is idealised as an odd function in the theorems; the real agent's use of libm tanh is exercised at "
+                 "saturation (|demand*tanh(scale*M)/n| >= 1 for every M != 0) and through mirrored runs",
+                 "Props/C17 imports three Mathlib modules (ring, linarith, ordered-field instance for Rat)"]
